@@ -144,10 +144,17 @@ def name_cases(draw):
             s[1] = draw(st.sampled_from([a for a in (0, 1, -1) if a != s[1]]))  # same operation, other static argument (axis)
         elif s[0] == "mapt":
             s[1] = draw(st.sampled_from([k for k in ("i1", "i2", "s1", "t01", "l01") if k != s[1]]))
-    return {"kind": "names", "shape": shape, "p1": p1, "p2": p2, "union": draw(st.sampled_from(["from_actions", "add", "graph_add", "single"])),
+    union = draw(st.sampled_from(["from_actions", "add", "graph_add", "single"]))
+    # end both programs in a single node (reductions over every dimension): a union with exactly one sink
+    collapse = draw(st.booleans()) if union == "single" else draw(st.integers(0, 3)) == 0
+    if union == "single" and collapse and draw(st.booleans()):
+        # ... whose ancestry writes one sub-expression twice (each binary step builds its second operand anew): distinct node
+        # objects under one name inside ONE action, which only the union's de-duplication merges
+        ops = draw(st.lists(st.sampled_from(["subtract", "add", "multiply", "divide"]), min_size=2, max_size=2))
+        p1 = [["binary", ops[0], "fwd"], ["binary", ops[1], draw(st.sampled_from(["fwd", "rev"]))]] + p1[:2]
+    return {"kind": "names", "shape": shape, "p1": p1, "p2": p2, "union": union,
             "lambda_sources": draw(st.booleans()),
-            # end both programs in a single node (reductions over every dimension): a union with exactly one sink
-            "collapse": draw(st.integers(0, 3)) == 0}
+            "collapse": collapse}
 
 
 @st.composite
